@@ -72,6 +72,8 @@ CaseOK(c) ==
     [] c.kind = "corrupt" -> CorruptOK(c.ret)
     [] c.kind = "audit" -> AuditOK(c)
     [] c.kind = "actables" -> ACTablesOK(c)
+    [] c.kind = "load2" -> ConsumesExactlyOK(c)
+    [] c.kind = "savesize" -> SaveSizeOK(c)
     [] c.kind = "savefail" -> SaveFailOK(c)
     [] c.kind = "range" -> c.claim = HR!Addressed(c.blocks, c.o, c.l)
     [] c.kind = "apiop" -> AL!OpOK([c EXCEPT !.allowed = {c.allowed[i] : i \in DOMAIN c.allowed}])
